@@ -680,7 +680,9 @@ func c03Run(c Case) (Result, error) {
 		// cross-check with the library's own individual verification
 		ind, _ := pks[i].Verify(sigs[i], msg, hs)
 		if ind != out[i] {
-			obs[len(obs)-1] = cqbool(!ind) // force a visible disagreement with the oracle as well
+			// the property is exactly this equality; which side is wrong is for the Coq oracle to say
+			// when it can, but the disagreement itself is already a failing input
+			return Result{}, implViolation("index %d of %d (leaf kind %s, signature of %d bytes): BatchVerifyBLSSignaturesOneMessage says %v, Verify says %v", i, n, in.Leaves[i].Kind, len(sigs[i]), out[i], ind)
 		}
 	}
 	term := fmt.Sprintf("ApiCase %s %s %s", cqlist(coqL), cqlist(pre), cqlist(obs))
